@@ -125,15 +125,21 @@ Ev& record(const std::string& kind, const std::string& who,
            const std::string& a = "", const std::string& b = "",
            int64_t n1 = 0, int64_t n2 = 0, int64_t res = 0, int inc = -1);
 void violate(const std::string& clause, const std::string& detail);
-inline void probe(const std::string& k, int64_t n = 1) {
-  R.probes[k] += n;
-}
-inline void fired(const std::string& k, int64_t n = 1) {
-  R.faults[k] += n;
-}
-inline void abstain(const std::string& k, int64_t n = 1) {
-  R.unconstrained[k] += n;
-}
+void probe(const std::string& k, int64_t n = 1);
+void fired(const std::string& k, int64_t n = 1);
+void abstain(const std::string& k, int64_t n = 1);
+
+// Suppress ThreadSanitizer's view of harness-internal memory accesses (the
+// harness is serialised by the scheduler's baton, which TSan deliberately
+// cannot see). No-op in the other flavours.
+struct TsanIgnore {
+  TsanIgnore();
+  ~TsanIgnore();
+};
+
+// set by the runner: print the result line for this run now and _exit (used
+// when a simulated thread detects that the run cannot continue)
+extern std::function<void()> g_emitResultAndExit;
 
 // thrown from the wrapped sigtimedwait to leave Oomd::run
 struct SimStop {};
